@@ -252,6 +252,9 @@ namespace chaiscript {
   } // namespace detail
 
   class Type_Conversions {
+#ifdef CHAISCRIPT_VERIF
+    friend struct ::chaiscript_verif::Access;
+#endif
   public:
     struct Conversion_Saves {
       bool enabled = false;
